@@ -36,7 +36,8 @@ MANIFEST = dict(
                 "no reachable quiet state is stuck: when nothing is pending (queues drained, buffers empty, nothing to read, "
                 "every flag propagated - Quiet, proved equivalent to the executable test quietB) every open endpoint has "
                 "received exactly what the tunnel read from its peer, every closed endpoint's close has reached the other "
-                "endpoint's socket, and if both closed both handlers are finished (C02_quiet_complete). "
+                "endpoint's socket, and if both closed both handlers are completely shut and unregistered, i.e. the id is free "
+                "(C02_quiet_complete). "
                 "The model is replayed against the real classes on every run with close-order scenarios; teardown within "
                 "bounded work and absence of stuck states are checked on the real code by the fair-drain oracle."),
     level_note=("Trusted: as C01. Liveness (teardown within bounded work, no stuck state under a fair schedule) is decided on the "
